@@ -64,16 +64,148 @@ Proof.
   - apply IH; assumption.
 Qed.
 
+(* ------------------------------------------------------------------ the hardened scanner agrees with the old one
+   wherever the old one succeeds (Col26.v mirrors the pre-hardening code) *)
+Lemma sat64_id : forall x, x <= U64MAX -> sat64 x = x.
+Proof. intros x H. unfold sat64. lia. Qed.
+
+Lemma mkst_eq : forall a b c d a' b' c', a = a' -> b = b' -> c = c' ->
+  @Ok scan_state {| s_row := a; s_col := b; s_pow := c; s_readrow := d |} =
+  Ok {| s_row := a'; s_col := b'; s_pow := c'; s_readrow := d |}.
+Proof. intros. subst. reflexivity. Qed.
+
+Definition sbound (s : scan_state) : Prop :=
+  s_row s <= U32MAX /\ s_col s <= U32MAX /\ s_pow s <= U32MAX.
+
+Lemma scan_letter_sim : forall base c s s', sbound s -> scan_letter base c s = Ok s' ->
+  xscan_letter base c s = Ok s' /\ sbound s'.
+Proof.
+  intros base c s s' [B1 [B2 B3]] H. unfold scan_letter, xscan_letter in *.
+  destruct (s_readrow s) eqn:R.
+  - destruct (s_row s =? 0); [discriminate|]. cbn [obind] in *. cbn [s_pow s_col s_row] in *.
+    unfold mul32, add32 in H.
+    destruct ((c - base + 1) * 1 <=? U32MAX) eqn:E1; [|discriminate]. cbn [obind] in H.
+    destruct (s_col s + (c - base + 1) * 1 <=? U32MAX) eqn:E2; [|discriminate]. cbn [obind] in H.
+    destruct (1 * 26 <=? U32MAX) eqn:E3; [|discriminate]. cbn [obind] in H.
+    inversion H; subst s'. apply N.leb_le in E1, E2, E3. unfold U32MAX, U64MAX in *.
+    split; [apply mkst_eq; unfold sat64, U64MAX; lia|].
+    unfold sbound. cbn [s_row s_col s_pow]. unfold U32MAX. lia.
+  - cbn [obind] in *. unfold mul32, add32 in H.
+    destruct ((c - base + 1) * s_pow s <=? U32MAX) eqn:E1; [|discriminate]. cbn [obind] in H.
+    destruct (s_col s + (c - base + 1) * s_pow s <=? U32MAX) eqn:E2; [|discriminate]. cbn [obind] in H.
+    destruct (s_pow s * 26 <=? U32MAX) eqn:E3; [|discriminate]. cbn [obind] in H.
+    inversion H; subst s'. apply N.leb_le in E1, E2, E3. unfold U32MAX, U64MAX in *.
+    split; [apply mkst_eq; unfold sat64, U64MAX; lia|].
+    unfold sbound. cbn [s_row s_col s_pow]. unfold U32MAX. lia.
+Qed.
+
+Lemma scan_char_sim : forall c s s', sbound s -> scan_char c s = Ok s' ->
+  xscan_char c s = Ok s' /\ sbound s'.
+Proof.
+  intros c s s' B H. pose proof B as [B1 [B2 B3]]. unfold scan_char, xscan_char in *.
+  destruct (is_digit c).
+  - destruct (s_readrow s); [|discriminate]. unfold mul32, add32 in H.
+    destruct ((c - ch_0) * s_pow s <=? U32MAX) eqn:E1; [|discriminate]. cbn [obind] in H.
+    destruct (s_row s + (c - ch_0) * s_pow s <=? U32MAX) eqn:E2; [|discriminate]. cbn [obind] in H.
+    destruct (s_pow s * 10 <=? U32MAX) eqn:E3; [|discriminate]. cbn [obind] in H.
+    inversion H; subst s'. apply N.leb_le in E1, E2, E3. unfold U32MAX, U64MAX in *.
+    split; [apply mkst_eq; unfold sat64, U64MAX; lia|].
+    unfold sbound. cbn [s_row s_col s_pow]. unfold U32MAX. lia.
+  - destruct (is_upper c); [apply scan_letter_sim; assumption|].
+    destruct (is_lower c); [apply scan_letter_sim; assumption|discriminate].
+Qed.
+
+Lemma scan_loop_sim : forall rs s s', sbound s -> scan_loop rs s = Ok s' ->
+  xscan_loop rs s = Ok s' /\ sbound s'.
+Proof.
+  induction rs as [|c rs IH]; intros s s' B H.
+  - cbn in *. inversion H; subst. split; [reflexivity|exact B].
+  - cbn [scan_loop xscan_loop] in *. destruct (scan_char c s) as [s1| | |] eqn:E; try discriminate.
+    destruct (scan_char_sim c s s1 B E) as [X B1]. rewrite X. cbn [obind] in *. apply IH; assumption.
+Qed.
+
+Lemma groc_sim : forall range x, get_row_and_optional_column range = Ok x ->
+  get_row_and_optional_column_x range = Ok x.
+Proof.
+  intros range x H. unfold get_row_and_optional_column, get_row_and_optional_column_x in *.
+  destruct (scan_loop (rev range) scan_init) as [s| | |] eqn:E; try discriminate.
+  assert (B0 : sbound scan_init) by (unfold sbound, scan_init, U32MAX; cbn; lia).
+  destruct (scan_loop_sim _ _ _ B0 E) as [X [B1 [B2 _]]]. rewrite X. cbn [obind] in *.
+  destruct (s_row s =? 0); [discriminate|].
+  assert (R : (U32MAX <? s_row s - 1) = false) by (apply N.ltb_ge; lia). rewrite R.
+  destruct (s_col s =? 0); [exact H|].
+  assert (C : (U32MAX <? s_col s - 1) = false) by (apply N.ltb_ge; lia). rewrite C. exact H.
+Qed.
+
+Lemma get_row_column_sim : forall range x, get_row_column range = Ok x -> get_row_column_x range = Ok x.
+Proof.
+  intros range x H. unfold get_row_column, get_row_column_x in *.
+  destruct (get_row_and_optional_column range) as [rc| | |] eqn:E; try discriminate.
+  rewrite (groc_sim _ _ E). exact H.
+Qed.
+
+Lemma get_row_sim : forall range x, get_row range = Ok x -> get_row_x range = Ok x.
+Proof.
+  intros range x H. unfold get_row, get_row_x in *.
+  destruct (get_row_and_optional_column range) as [rc| | |] eqn:E; try discriminate.
+  rewrite (groc_sim _ _ E). exact H.
+Qed.
+
+Lemma collect_parts_sim : forall ps xs, collect_parts ps = Ok xs -> collect_parts_x ps = Ok xs.
+Proof.
+  induction ps as [|p ps IH]; intros xs H; [exact H|]. cbn [collect_parts collect_parts_x] in *.
+  destruct (get_row_column p) as [x| | |] eqn:E; try discriminate.
+  rewrite (get_row_column_sim _ _ E). cbn [obind] in *.
+  destruct (collect_parts ps) as [ys| | |]; try discriminate. rewrite (IH _ eq_refl). exact H.
+Qed.
+
+Lemma get_dimension_sim : forall dm x, get_dimension dm = Ok x -> get_dimension_x dm = Ok x.
+Proof.
+  intros dm x H. unfold get_dimension, get_dimension_x in *.
+  destruct (collect_parts (split_on ch_colon dm [])) as [parts| | |] eqn:E; try discriminate.
+  rewrite (collect_parts_sim _ _ E). cbn [obind] in *.
+  destruct parts as [|p0 [|p1 [|p2 parts]]]; try exact H.
+  destruct (sub32 (fst p1) (fst p0)); try discriminate. cbn [obind] in H.
+  destruct (sub32 (snd p1) (snd p0)); try discriminate. exact H.
+Qed.
+
+(* the hardened scanner never panics, on any input *)
+Lemma xscan_loop_total : forall rs s, xscan_loop rs s <> Panic /\ xscan_loop rs s <> OutOfFuel.
+Proof.
+  induction rs as [|c rs IH]; intros s; [split; discriminate|]. cbn [xscan_loop].
+  assert (C : (exists s', xscan_char c s = Ok s') \/ (exists e, xscan_char c s = Err e)).
+  { unfold xscan_char, xscan_letter.
+    destruct (is_digit c); [destruct (s_readrow s); eauto|].
+    destruct (is_upper c); [destruct (s_readrow s); [destruct (s_row s =? 0)|]; cbn [obind]; eauto|].
+    destruct (is_lower c); [destruct (s_readrow s); [destruct (s_row s =? 0)|]; cbn [obind]; eauto|].
+    eauto. }
+  destruct C as [[s' E]|[e E]]; rewrite E; cbn [obind]; [apply IH|split; discriminate].
+Qed.
+
+Theorem scanner_no_panic : forall range,
+  get_row_and_optional_column_x range <> Panic /\ get_row_and_optional_column_x range <> OutOfFuel.
+Proof.
+  intros range. unfold get_row_and_optional_column_x.
+  destruct (xscan_loop_total (rev range) scan_init) as [P F].
+  destruct (xscan_loop (rev range) scan_init) as [s| | |]; cbn [obind]; try contradiction;
+    try (split; discriminate).
+  destruct (s_row s =? 0); [split; discriminate|].
+  destruct (U32MAX <? s_row s - 1); [split; discriminate|].
+  destruct (s_col s =? 0); [split; discriminate|].
+  destruct (U32MAX <? s_col s - 1); split; discriminate.
+Qed.
+
 (* ------------------------------------------------------------------ (1) A1 names *)
 Theorem a1_roundtrip_full : forall row col,
   row + 1 < ROW_LIMIT -> col < COL_LIMIT ->
-  get_row_and_optional_column (a1_name row col) = Ok (row, Some col) /\
-  get_row_and_optional_column (map to_lower (a1_name row col)) = Ok (row, Some col) /\
+  get_row_and_optional_column_x (a1_name row col) = Ok (row, Some col) /\
+  get_row_and_optional_column_x (map to_lower (a1_name row col)) = Ok (row, Some col) /\
   ~ In ch_dollar (a1_name row col).
 Proof.
   intros row col Hr Hc. split; [|split].
-  - apply get_row_and_optional_column_a1_name; assumption.
-  - rewrite get_row_and_optional_column_lower. apply get_row_and_optional_column_a1_name; assumption.
+  - apply groc_sim. apply get_row_and_optional_column_a1_name; assumption.
+  - apply groc_sim. rewrite get_row_and_optional_column_lower.
+    apply get_row_and_optional_column_a1_name; assumption.
   - intros H. unfold a1_name in H. apply in_app_or in H. destruct H as [H|H].
     + pose proof (letters_upper col) as F. rewrite Forall_forall in F. specialize (F _ H).
       unfold is_upper, ch_dollar, ch_A, ch_Z in F. lia.
@@ -81,15 +213,10 @@ Proof.
       unfold is_digit, ch_dollar, ch_0, ch_9 in F. lia.
 Qed.
 
-(* the limits are exact: one more digit or letter overflows u32 (Col26_proofs) *)
-Theorem a1_row_limit_exact : forall row col, ROW_LIMIT <= row + 1 ->
-  get_row_column (a1_name row col) = Panic.
-Proof. exact get_row_column_row_text_overflow. Qed.
-
 Lemma cell_ref_ok : forall row c, row + 1 < ROW_LIMIT -> ec_col c < COL_LIMIT ->
-  get_row_column (cell_ref row c) = Ok (row, ec_col c).
+  get_row_column_x (cell_ref row c) = Ok (row, ec_col c).
 Proof.
-  intros row c Hr Hc. unfold cell_ref. destruct (ec_lower c).
+  intros row c Hr Hc. apply get_row_column_sim. unfold cell_ref. destruct (ec_lower c).
   - rewrite get_row_column_lower. apply get_row_column_a1_name; assumption.
   - apply get_row_column_a1_name; assumption.
 Qed.
@@ -167,7 +294,7 @@ Lemma run_ret : forall en row col p a st v e racc rest,
   cells_run en (ShCell row col p a st) racc (e :: rest) =
   cells_run en (ShOuter row (col + 1)) ((p, v) :: racc) rest.
 Proof.
-  intros. cbn [XlsxSheet.cells_run XlsxSheet.cells_step]. rewrite H. unfold add32.
+  intros. cbn [XlsxSheet.cells_run XlsxSheet.cells_step]. rewrite H.
   apply N.leb_le in H0. rewrite H0. reflexivity.
 Qed.
 
@@ -252,28 +379,28 @@ Definition has_v (c : ecell) : option str :=      (* the text of the <v> element
   match ec_val c with
   | LNumber t => Some t
   | LString s => match ec_sform c with SfShared idx => Some (dec idx) | SfInline => None | SfStr => Some s end
-  | LBool b => Some (if b then v_1 else v_0)
+  | LBool b => Some (if ec_alt c then (if b then v_true else v_false) else (if b then v_1 else v_0))
   | LError code => Some (err_text code)
   | LIso s => Some s
-  | LBlank => if ec_tn c then Some [] else None
+  | LBlank => if ec_alt c then Some [] else None
   end.
 
-Lemma parse_cell_error_text : forall code, code <= 6 -> parse_cell_error (err_text code) = Some code.
+Lemma parse_cell_error_text : forall code, code <= 7 -> parse_cell_error (err_text code) = Some code.
 Proof.
   intros code H.
-  assert (D : code = 0 \/ code = 1 \/ code = 2 \/ code = 3 \/ code = 4 \/ code = 5 \/ code = 6) by lia.
-  destruct D as [D|[D|[D|[D|[D|[D|D]]]]]]; subst; reflexivity.
+  assert (D : code = 0 \/ code = 1 \/ code = 2 \/ code = 3 \/ code = 4 \/ code = 5 \/ code = 6 \/ code = 7) by lia.
+  destruct D as [D|[D|[D|[D|[D|[D|[D|D]]]]]]]; subst; reflexivity.
 Qed.
 
 Lemma read_v_ok : forall en a c v,
   get_attribute a a_t = cell_t c ->
   cell_format_of en a = style_format en (ec_style c) ->
-  legal_value en c = true -> known_cell c = false ->
+  legal_value en c = true ->
   has_v c = Some v ->
   read_v en v a = Cont (cell_dref en c).
 Proof.
-  intros en a c v Ht Hf Hl Hk Hv. unfold XlsxSheet.read_v. rewrite Ht, Hf.
-  unfold cell_t, has_v, cell_dref, XlsxSheet.legal_value, known_cell in *.
+  intros en a c v Ht Hf Hl Hv. unfold XlsxSheet.read_v. rewrite Ht, Hf.
+  unfold cell_t, has_v, cell_dref, XlsxSheet.legal_value in *.
   destruct (ec_val c) as [t|s|b|code|s|].
   - inversion Hv; subst v. destruct t as [|t0 t]; [discriminate|].
     destruct (parse_f64 (t0 :: t)) as [bits|] eqn:P; [|discriminate].
@@ -286,27 +413,22 @@ Proof.
     + inversion Hv; subst v. change (str_eqb v_s v_s) with true. cbn iota.
       apply andb_true_iff in Hl. destruct Hl as [H1 H2]. apply N.leb_le in H1.
       rewrite parse_usize_dec by exact H1. rewrite nth_N_spec in H2.
+      rewrite nth_N_spec.
       destruct (nth_error (e_strings en) (N.to_nat idx)) as [s'|] eqn:E; [|discriminate].
-      apply str_eqb_eq in H2. subst s'.
-      assert (L : (N.to_nat idx < length (e_strings en))%nat) by (apply nth_error_Some; congruence).
-      destruct (idx <? N.of_nat (length (e_strings en))) eqn:E2; [reflexivity|].
-      apply N.ltb_ge in E2. lia.
+      apply str_eqb_eq in H2. subst s'. reflexivity.
     + inversion Hv; subst v. change (str_eqb v_str v_s) with false.
       change (str_eqb v_str v_b) with false. change (str_eqb v_str v_e) with false.
       change (str_eqb v_str v_d) with false. change (str_eqb v_str v_str) with true. cbn iota.
       apply str_eqb_eq in Hl. rewrite Hl. reflexivity.
   - inversion Hv; subst v. change (str_eqb v_b v_s) with false. change (str_eqb v_b v_b) with true.
-    cbn iota. destruct b; reflexivity.
+    cbn iota. destruct (ec_alt c); destruct b; reflexivity.
   - inversion Hv; subst v. change (str_eqb v_e v_s) with false. change (str_eqb v_e v_b) with false.
     change (str_eqb v_e v_e) with true. cbn iota.
-    apply N.leb_le in Hl.
-    assert (H6 : code <= 6).
-    { destruct (code =? 7) eqn:E7; [|apply N.eqb_neq in E7; lia].
-      apply N.eqb_eq in E7. subst code. discriminate. }
-    rewrite parse_cell_error_text by exact H6. reflexivity.
+    apply N.leb_le in Hl. rewrite parse_cell_error_text by exact Hl. reflexivity.
   - inversion Hv; subst v. change (str_eqb v_d v_s) with false. change (str_eqb v_d v_b) with false.
     change (str_eqb v_d v_e) with false. change (str_eqb v_d v_d) with true. reflexivity.
-  - destruct (ec_tn c); [|discriminate]. inversion Hv; subst v.
+  - destruct (ec_alt c); [|discriminate]. inversion Hv; subst v.
+    destruct (ec_tn c); [|reflexivity].
     change (str_eqb v_n v_s) with false. change (str_eqb v_n v_b) with false.
     change (str_eqb v_n v_e) with false. change (str_eqb v_n v_d) with false.
     change (str_eqb v_n v_str) with false. change (str_eqb v_n v_n) with true. reflexivity.
@@ -373,12 +495,12 @@ Qed.
 Lemma content_run : forall en pfx row col p a c racc rest, no_colon pfx = true ->
   get_attribute a a_t = cell_t c ->
   cell_format_of en a = style_format en (ec_style c) ->
-  legal_value en c = true -> known_cell c = false ->
+  legal_value en c = true ->
   cells_run en (ShCell row col p a (CcOuter REmpty)) racc (cell_content pfx c ++ rest) =
   cells_run en (ShCell row col p a (CcOuter (cell_dref en c))) racc rest.
 Proof.
-  intros en pfx row col p a c racc rest Hp Ht Hf Hl Hk.
-  pose proof (@read_v_ok en a c) as RV. specialize (RV).
+  intros en pfx row col p a c racc rest Hp Ht Hf Hl.
+  pose proof (@read_v_ok en a c) as RV.
   unfold cell_content.
   destruct (ec_val c) as [t|s|b|code|s|] eqn:EV.
   - rewrite <- app_assoc, f_elem_run by exact Hp.
@@ -396,7 +518,7 @@ Proof.
     apply v_elem_run; [exact Hp|]. apply RV; try assumption. unfold has_v. rewrite EV. reflexivity.
   - apply v_elem_run; [exact Hp|]. apply RV; try assumption. unfold has_v. rewrite EV. reflexivity.
   - rewrite <- app_assoc, f_elem_run by exact Hp.
-    destruct (ec_tn c) eqn:ETN.
+    destruct (ec_alt c) eqn:ETN.
     + apply v_elem_run; [exact Hp|]. apply RV; try assumption. unfold has_v. rewrite EV, ETN. reflexivity.
     + cbn [app]. unfold cell_dref. rewrite EV. destruct (ec_formula c); reflexivity.
 Qed.
@@ -407,11 +529,11 @@ Proof. intros. apply andb_true_iff. assumption. Qed.
 
 Lemma cell_ok : forall en pfx row cur c racc rest,
   no_colon pfx = true -> row + 1 < ROW_LIMIT ->
-  legal_cell en cur c = true -> known_cell c = false ->
+  legal_cell en cur c = true ->
   cells_run en (ShOuter row cur) racc (cell_events pfx row c ++ rest) =
   cells_run en (ShOuter row (ec_col c + 1)) (((row, ec_col c), cell_dref en c) :: racc) rest.
 Proof.
-  intros en pfx row cur c racc rest Hp Hr Hl Hk.
+  intros en pfx row cur c racc rest Hp Hr Hl.
   unfold XlsxSheet.legal_cell in Hl.
   apply andb_split in Hl. destruct Hl as [Hl Hval].
   apply andb_split in Hl. destruct Hl as [Hl Hjunk].
@@ -449,20 +571,18 @@ Definition sheet_cells_ref (en : env) (sh : esheet) : list (pos * dref) :=
 Lemma cells_ok : forall en pfx row cs cur racc rest,
   no_colon pfx = true -> row + 1 < ROW_LIMIT ->
   legal_cells en cur cs = true ->
-  (forall c, In c cs -> known_cell c = false) ->
   exists cur',
   cells_run en (ShOuter row cur) racc (flat_map (cell_events pfx row) cs ++ rest) =
   cells_run en (ShOuter row cur')
             (rev (map (fun c => ((row, ec_col c), cell_dref en c)) cs) ++ racc) rest.
 Proof.
-  induction cs as [|c cs IH]; intros cur racc rest Hp Hr Hl Hk.
+  induction cs as [|c cs IH]; intros cur racc rest Hp Hr Hl.
   - exists cur. reflexivity.
   - cbn [XlsxSheet.legal_cells] in Hl. apply andb_split in Hl. destruct Hl as [Hc Hcs].
     cbn [flat_map]. rewrite <- app_assoc.
-    rewrite cell_ok; try assumption. 2:{ apply Hk. left. reflexivity. }
+    rewrite cell_ok; try assumption.
     destruct (IH (ec_col c + 1) (((row, ec_col c), cell_dref en c) :: racc) rest Hp Hr Hcs)
       as [cur' E].
-    { intros c' Hc'. apply Hk. right. exact Hc'. }
     exists cur'. rewrite E. cbn [map rev]. rewrite <- app_assoc. reflexivity.
 Qed.
 
@@ -477,11 +597,10 @@ Qed.
 
 Lemma row_ok : forall en pfx r cur racc rest,
   no_colon pfx = true -> legal_row en cur r = true ->
-  (forall c, In c (er_cells r) -> known_cell c = false) ->
   cells_run en (ShOuter cur 0) racc (row_events pfx r ++ rest) =
   cells_run en (ShOuter (er_row r + 1) 0) (rev (row_cells en r) ++ racc) rest.
 Proof.
-  intros en pfx r cur racc rest Hp Hl Hk.
+  intros en pfx r cur racc rest Hp Hl.
   unfold XlsxSheet.legal_row in Hl.
   apply andb_split in Hl. destruct Hl as [Hl Hcells].
   apply andb_split in Hl. destruct Hl as [Hl Hjunk].
@@ -495,47 +614,45 @@ Proof.
                SCont (ShOuter (er_row r) 0)).
   { cbn [XlsxSheet.cells_step]. loc. change (str_eqb n_row n_row) with true. cbn iota.
     rewrite row_attrs_r by exact Hextra. destruct (er_explicit r).
-    - rewrite get_row_dec by exact Hrow. reflexivity.
+    - rewrite (get_row_sim _ _ (get_row_dec _ Hrow)). reflexivity.
     - cbn [orb] in Himp. apply N.eqb_eq in Himp. rewrite Himp. reflexivity. }
   cbn [XlsxSheet.cells_run]. rewrite S1.
   rewrite junk_skip by exact Hjunk0.
   destruct (@cells_ok en pfx (er_row r) (er_cells r) 0 racc
-              (End (qn pfx n_row) :: er_junk r ++ rest) Hp Hrow Hcells Hk) as [cur' E].
+              (End (qn pfx n_row) :: er_junk r ++ rest) Hp Hrow Hcells) as [cur' E].
   rewrite E. unfold row_cells.
   (* </row> *)
   cbn [XlsxSheet.cells_run XlsxSheet.cells_step]. loc.
   change (str_eqb n_row n_row) with true. cbn iota.
-  unfold add32. unfold ROW_LIMIT in Hrow.
+  unfold ROW_LIMIT in Hrow.
   assert (B : (er_row r + 1 <=? U32MAX) = true) by (apply N.leb_le; unfold U32MAX; lia).
-  rewrite B. cbn [obind lift_sh].
+  rewrite B.
   apply junk_skip. exact Hjunk.
 Qed.
 
 Lemma rows_ok : forall en pfx rs cur racc rest,
   no_colon pfx = true -> legal_rows en cur rs = true ->
-  (forall r, In r rs -> forall c, In c (er_cells r) -> known_cell c = false) ->
   exists cur',
   cells_run en (ShOuter cur 0) racc (flat_map (row_events pfx) rs ++ rest) =
   cells_run en (ShOuter cur' 0) (rev (flat_map (row_cells en) rs) ++ racc) rest.
 Proof.
-  induction rs as [|r rs IH]; intros cur racc rest Hp Hl Hk.
+  induction rs as [|r rs IH]; intros cur racc rest Hp Hl.
   - exists cur. reflexivity.
   - cbn [XlsxSheet.legal_rows] in Hl. apply andb_split in Hl. destruct Hl as [Hr Hrs].
     cbn [flat_map]. rewrite <- app_assoc.
-    rewrite row_ok; try assumption. 2:{ apply Hk. left. reflexivity. }
+    rewrite row_ok; try assumption.
     destruct (IH (er_row r + 1) (rev (row_cells en r) ++ racc) rest Hp Hrs) as [cur' E].
-    { intros r' Hr'. apply Hk. right. exact Hr'. }
     exists cur'. rewrite E. rewrite rev_app_distr, <- app_assoc. reflexivity.
 Qed.
 
 (* all cells of an encoded sheet, from <sheetData> on *)
 Lemma body_ok : forall en sh rest0,
-  legal_sheet en sh = true -> known_C01 sh = None ->
+  legal_sheet en sh = true ->
   cells_run en (ShOuter 0 0) []
     (es_junk0 sh ++ flat_map (row_events (es_pfx sh)) (es_rows sh) ++
      End (qn (es_pfx sh) n_sheetData) :: rest0) = Ok (sheet_cells_ref en sh).
 Proof.
-  intros en sh rest0 Hl Hk. unfold XlsxSheet.legal_sheet in Hl.
+  intros en sh rest0 Hl. unfold XlsxSheet.legal_sheet in Hl.
   apply andb_split in Hl. destruct Hl as [Hl Hrows].
   apply andb_split in Hl. destruct Hl as [Hl Hjunk0].
   apply andb_split in Hl. destruct Hl as [Hl Hpre2].
@@ -544,11 +661,6 @@ Proof.
   rewrite junk_skip by exact Hjunk0.
   destruct (@rows_ok en (es_pfx sh) (es_rows sh) 0 []
               (End (qn (es_pfx sh) n_sheetData) :: rest0) Hp Hrows) as [cur' E].
-  { intros r Hr c Hc. unfold known_C01 in Hk.
-    destruct (existsb (fun r0 => existsb known_cell (er_cells r0)) (es_rows sh)) eqn:X; [discriminate|].
-    destruct (known_cell c) eqn:K; [|reflexivity]. exfalso.
-    rewrite <- not_true_iff_false in X. apply X. apply existsb_exists. exists r. split; [exact Hr|].
-    apply existsb_exists. exists c. split; assumption. }
   rewrite E. cbn [XlsxSheet.cells_run XlsxSheet.cells_step]. loc.
   change (str_eqb n_sheetData n_row) with false. change (str_eqb n_sheetData n_sheetData) with true.
   cbn iota. rewrite app_nil_r, rev_involutive. reflexivity.
@@ -581,7 +693,7 @@ Proof.
     cbn [XmlText.get_attribute]. change (str_eqb a_ref a_ref) with true. cbn iota.
     cbn [legal_dim] in Hl. unfold pos_ok in Hl. apply andb_split in Hl. destruct Hl as [H1 H2].
     apply N.ltb_lt in H1, H2.
-    rewrite get_dimension_single by assumption. cbn [obind].
+    rewrite (get_dimension_sim _ _ (@get_dimension_single (fst p) (snd p) H1 H2)). cbn [obind].
     eexists. reflexivity.
   - unfold elem. cbn [app reader_new_loop]. loc.
     change (str_eqb n_dimension n_dimension) with true. cbn iota.
@@ -591,7 +703,7 @@ Proof.
     apply andb_split in Hl. destruct Hl as [H1 H2].
     apply N.ltb_lt in H1, H2. apply N.leb_le in H3, H4.
     pose proof (@get_dimension_pair (fst s) (snd s) (fst e) (snd e) H3 H4 H1 H2) as G.
-    cbn [app] in G. rewrite G. cbn [obind].
+    cbn [app] in G. rewrite (get_dimension_sim _ _ G). cbn [obind].
     eexists. reflexivity.
 Qed.
 
@@ -619,10 +731,10 @@ Qed.
 (* the cells the reader yields for a legal encoding: one per encoded cell, in document order, at
    the position and with the value the logical sheet has there *)
 Theorem sheet_cells_encode : forall en sh,
-  legal_sheet en sh = true -> known_C01 sh = None ->
+  legal_sheet en sh = true ->
   sheet_cells parse_f64 en (encode sh) = Ok (Some (sheet_cells_ref en sh)).
 Proof.
-  intros en sh Hl Hk. pose proof Hl as Hl0. unfold XlsxSheet.legal_sheet in Hl.
+  intros en sh Hl. pose proof Hl as Hl0. unfold XlsxSheet.legal_sheet in Hl.
   apply andb_split in Hl. destruct Hl as [Hl Hrows].
   apply andb_split in Hl. destruct Hl as [Hl Hjunk0].
   apply andb_split in Hl. destruct Hl as [Hl Hpre2].
@@ -799,7 +911,7 @@ Proof. induction l as [|y l IH]; intros [|i] x; cbn; try reflexivity. rewrite IH
 Lemma map_repeat' : forall A B (f : A -> B) x n, map f (repeat x n) = repeat (f x) n.
 Proof. induction n as [|n IH]; cbn; [reflexivity|]. rewrite IH. reflexivity. Qed.
 
-(* from_sparse with its four bounds abstracted *)
+(* from_sparse before the hardening (Range.v) with its four bounds abstracted *)
 Definition fs_core (T : Type) (d : T) (row_start row_end col_start col_end : N)
            (cells : list (pos * T)) : outcome (range T) :=
   do c0' <- sub32 col_end col_start;
@@ -817,65 +929,200 @@ Definition fs_core (T : Type) (d : T) (row_start row_end col_start col_end : N)
           cells (Ok v0);
   Ok (mkRange (row_start, col_start) (row_end, col_end) v).
 
-Definition col_lo (T : Type) (cells : list (pos * T)) : N :=
-  fold_left (fun m c => if snd (fst c) <? m then snd (fst c) else m) cells U32MAX.
-Definition col_hi (T : Type) (cells : list (pos * T)) : N :=
-  fold_left (fun m c => if m <? snd (fst c) then snd (fst c) else m) cells 0.
-
 Lemma from_sparse_core : forall T (d : T) c0 cs,
   from_sparse d (c0 :: cs) =
-  fs_core T d (fst (fst c0)) (fst (fst (last (c0 :: cs) c0))) (col_lo T (c0 :: cs)) (col_hi T (c0 :: cs))
+  fs_core T d (fst (fst c0)) (fst (fst (last (c0 :: cs) c0))) (col_lo (c0 :: cs)) (col_hi (c0 :: cs))
           (c0 :: cs).
 Proof. reflexivity. Qed.
 
-Lemma fs_core_map : forall A B (f : A -> B) (d : A) rs re cl ch (cs : list (pos * A)),
-  fs_core B (f d) rs re cl ch (map (fun c => (fst c, f (snd c))) cs) =
-  omap (map_range f) (fs_core A d rs re cl ch cs).
+(* --- the hardened from_sparse commutes with a map on the values --- *)
+Lemma fsx_core_map : forall A B (f : A -> B) (d : A) rs re cl ch (cs : list (pos * A)),
+  fsx_core (f d) rs re cl ch (map (fun c => (fst c, f (snd c))) cs) =
+  map_range f (fsx_core d rs re cl ch cs).
 Proof.
-  intros A B f d rs re cl ch cs. unfold fs_core. cbv zeta.
-  destruct (sub32 ch cl) as [c0'| | |]; cbn [obind omap]; try reflexivity.
-  destruct (add32 c0' 1) as [cols| | |]; cbn [obind omap]; try reflexivity.
-  destruct (sub32 re rs) as [r0'| | |]; cbn [obind omap]; try reflexivity.
-  destruct (add32 r0' 1) as [rows| | |]; cbn [obind omap]; try reflexivity.
-  rewrite <- (map_repeat' A B f d).
-  generalize (repeat d (N.to_nat (cols * rows))) as v0. intros v0.
-  rewrite fold_left_map'. cbn [fst snd]. unfold pos in *.
-  assert (G : forall l (acc : outcome (list A)),
-    fold_left (fun (acc0 : outcome (list B)) (x : N * N * A) =>
-                 do v <- acc0; do row <- sub32 (fst (fst x)) rs;
-                 do col <- sub32 (snd (fst x)) cl;
-                 if row * cols + col <? cols * rows
-                 then Ok (list_set v (N.to_nat (row * cols + col)) (f (snd x))) else Ok v)
-              l (omap (map f) acc) =
-    omap (map f)
-      (fold_left (fun (acc0 : outcome (list A)) (c : N * N * A) =>
-                 do v <- acc0; do row <- sub32 (fst (fst c)) rs;
-                 do col <- sub32 (snd (fst c)) cl;
-                 if row * cols + col <? cols * rows
-                 then Ok (list_set v (N.to_nat (row * cols + col)) (snd c)) else Ok v)
-              l acc)).
-  { induction l as [|x l IH]; intros acc; [reflexivity|]. cbn [fold_left]. rewrite <- IH. f_equal.
-    destruct acc as [v| | |]; cbn [omap obind]; try reflexivity.
-    destruct (sub32 (fst (fst x)) rs) as [row| | |]; cbn [obind]; try reflexivity.
-    destruct (sub32 (snd (fst x)) cl) as [col| | |]; cbn [obind]; try reflexivity.
-    destruct (row * cols + col <? cols * rows); cbn [obind omap]; [|reflexivity].
-    rewrite map_list_set. reflexivity. }
-  specialize (G cs (Ok v0)). cbn [omap obind] in G. rewrite G.
-  destruct (fold_left _ cs (Ok v0)) as [v| | |]; reflexivity.
+  intros A B f d rs re cl ch cs. unfold fsx_core, map_range. cbv zeta. cbn [r_start r_end r_inner].
+  f_equal. rewrite <- (map_repeat' A B f d). rewrite fold_left_map'. cbn [fst snd]. unfold pos in *.
+  generalize (repeat d (N.to_nat (sat64 ((ch - cl + 1) * (re - rs + 1))))) as v0.
+  induction cs as [|x cs IH]; intros v0; [reflexivity|]. cbn [fold_left fst snd].
+  destruct (sat64 ((fst (fst x) - rs) * (ch - cl + 1)) + (snd (fst x) - cl) <?
+            sat64 ((ch - cl + 1) * (re - rs + 1))).
+  - rewrite <- map_list_set. apply IH.
+  - apply IH.
 Qed.
 
-Lemma from_sparse_map : forall A B (f : A -> B) (d : A) (cs : list (pos * A)),
-  from_sparse (f d) (map (fun c => (fst c, f (snd c))) cs) =
-  omap (map_range f) (from_sparse d cs).
+Lemma from_sparse_x_map : forall A B (f : A -> B) (d : A) (cs : list (pos * A)),
+  from_sparse_x (f d) (map (fun c => (fst c, f (snd c))) cs) = map_range f (from_sparse_x d cs).
 Proof.
   intros A B f d cs. destruct cs as [|c0 cs]; [reflexivity|].
-  cbn [map]. rewrite !from_sparse_core.
-  change ((fst c0, f (snd c0)) :: map (fun c => (fst c, f (snd c))) cs)
+  change (map (fun c : pos * A => (fst c, f (snd c))) (c0 :: cs))
+    with ((fst c0, f (snd c0)) :: map (fun c : pos * A => (fst c, f (snd c))) cs).
+  unfold from_sparse_x.
+  change ((fst c0, f (snd c0)) :: map (fun c : pos * A => (fst c, f (snd c))) cs)
     with (map (fun c : pos * A => (fst c, f (snd c))) (c0 :: cs)).
-  rewrite <- fs_core_map. f_equal.
-  - rewrite (@last_map _ _ (fun c : pos * A => (fst c, f (snd c))) (c0 :: cs) c0). reflexivity.
+  rewrite <- fsx_core_map. f_equal.
+  - unfold row_lo. rewrite fold_left_map'. reflexivity.
+  - unfold row_hi. rewrite fold_left_map'. reflexivity.
   - unfold col_lo. rewrite fold_left_map'. reflexivity.
   - unfold col_hi. rewrite fold_left_map'. reflexivity.
+Qed.
+
+(* --- on row-sorted, bounded cell lists the two generations of from_sparse agree --- *)
+Section MinMax.
+Variable C : Type.
+Variable k : C -> N.
+Definition kmin (l : list C) (m : N) : N := fold_left (fun m c => if k c <? m then k c else m) l m.
+Definition kmax (l : list C) (m : N) : N := fold_left (fun m c => if m <? k c then k c else m) l m.
+
+Lemma kmin_le : forall l m, kmin l m <= m /\ forall c, In c l -> kmin l m <= k c.
+Proof.
+  induction l as [|x l IH]; intros m; [split; [cbn; lia|contradiction]|].
+  unfold kmin in *. cbn [fold_left]. destruct (k x <? m) eqn:E.
+  - apply N.ltb_lt in E. destruct (IH (k x)) as [A B]. split; [lia|].
+    intros c [Hc|Hc]; [subst; exact A|apply B; exact Hc].
+  - apply N.ltb_ge in E. destruct (IH m) as [A B]. split; [exact A|].
+    intros c [Hc|Hc]; [subst; lia|apply B; exact Hc].
+Qed.
+
+Lemma kmax_ge : forall l m, m <= kmax l m /\ forall c, In c l -> k c <= kmax l m.
+Proof.
+  induction l as [|x l IH]; intros m; [split; [cbn; lia|contradiction]|].
+  unfold kmax in *. cbn [fold_left]. destruct (m <? k x) eqn:E.
+  - apply N.ltb_lt in E. destruct (IH (k x)) as [A B]. split; [lia|].
+    intros c [Hc|Hc]; [subst; exact A|apply B; exact Hc].
+  - apply N.ltb_ge in E. destruct (IH m) as [A B]. split; [exact A|].
+    intros c [Hc|Hc]; [subst; lia|apply B; exact Hc].
+Qed.
+
+Lemma kmax_le_bound : forall B l m, m <= B -> (forall c, In c l -> k c <= B) -> kmax l m <= B.
+Proof.
+  induction l as [|x l IH]; intros m Hm H; [exact Hm|]. unfold kmax in *. cbn [fold_left].
+  destruct (m <? k x); apply IH; try (intros c Hc; apply H; right; exact Hc); try exact Hm.
+  apply H. left. reflexivity.
+Qed.
+
+Lemma kmin_first : forall l m, (forall c, In c l -> m <= k c) -> kmin l m = m.
+Proof.
+  induction l as [|x l IH]; intros m H; [reflexivity|]. unfold kmin in *. cbn [fold_left].
+  assert (Hx : m <= k x) by (apply H; left; reflexivity).
+  destruct (k x <? m) eqn:E; [apply N.ltb_lt in E; lia|].
+  apply IH. intros c Hc. apply H. right. exact Hc.
+Qed.
+
+(* adjacent-sorted: every later element is at least the first, the last is the largest *)
+Fixpoint adj_sorted (l : list C) : Prop :=
+  match l with
+  | [] => True
+  | x :: t => match t with [] => True | y :: _ => k x <= k y end /\ adj_sorted t
+  end.
+
+Lemma adj_sorted_ge_first : forall l x, adj_sorted (x :: l) -> forall c, In c l -> k x <= k c.
+Proof.
+  induction l as [|y l IH]; intros x H c Hc; [contradiction|].
+  cbn [adj_sorted] in H. destruct H as [H1 H2]. destruct Hc as [Hc|Hc]; [subst; exact H1|].
+  specialize (IH y H2 c Hc). lia.
+Qed.
+
+Lemma last_default_irrel : forall (l : list C) a b y, last (y :: l) a = last (y :: l) b.
+Proof.
+  induction l as [|z l IH]; intros a b y; [reflexivity|].
+  change (last (y :: z :: l) a) with (last (z :: l) a).
+  change (last (y :: z :: l) b) with (last (z :: l) b). apply IH.
+Qed.
+
+Lemma kmax_last : forall l x m, adj_sorted (x :: l) -> m <= k x -> kmax (x :: l) m = k (last (x :: l) x).
+Proof.
+  induction l as [|y l IH]; intros x m H Hm.
+  - unfold kmax. cbn. destruct (m <? k x) eqn:E; [reflexivity|]. apply N.ltb_ge in E. lia.
+  - unfold kmax in *. cbn [fold_left].
+    assert (E : (if m <? k x then k x else m) = k x).
+    { destruct (m <? k x) eqn:E; [reflexivity|]. apply N.ltb_ge in E. lia. }
+    rewrite E. cbn [adj_sorted] in H. destruct H as [H1 H2].
+    change (last (x :: y :: l) x) with (last (y :: l) x).
+    rewrite (last_default_irrel l x y y). apply (IH y (k x) H2 H1).
+Qed.
+End MinMax.
+
+Lemma sorted_by_row_adj : forall T (cs : list (pos * T)),
+  sorted_by_row cs -> adj_sorted (pos * T) (fun c => fst (fst c)) cs.
+Proof.
+  induction cs as [|c cs IH]; intros H; [exact I|]. cbn [sorted_by_row adj_sorted] in *.
+  destruct H as [H1 H2]. split; [|apply IH; exact H2]. destruct cs; [exact I|exact H1].
+Qed.
+
+Lemma fs_core_eq : forall T (d : T) rs re cl ch (cs : list (pos * T)),
+  rs <= re -> cl <= ch -> re <= 999999999 -> ch <= 999999999 ->
+  (forall c, In c cs -> rs <= fst (fst c) /\ fst (fst c) <= re /\ cl <= snd (fst c)) ->
+  fs_core T d rs re cl ch cs = Ok (fsx_core d rs re cl ch cs).
+Proof.
+  intros T d rs re cl ch cs Hr Hc Br Bc H. unfold fs_core, fsx_core, sub32, add32. cbv zeta. unfold pos in *.
+  assert (E1 : (cl <=? ch) = true) by (apply N.leb_le; exact Hc). rewrite E1. cbn [obind].
+  assert (E2 : (ch - cl + 1 <=? U32MAX) = true) by (apply N.leb_le; unfold U32MAX; lia). rewrite E2.
+  cbn [obind].
+  assert (E3 : (rs <=? re) = true) by (apply N.leb_le; exact Hr). rewrite E3. cbn [obind].
+  assert (E4 : (re - rs + 1 <=? U32MAX) = true) by (apply N.leb_le; unfold U32MAX; lia). rewrite E4.
+  cbn [obind].
+  set (cols := ch - cl + 1). set (rows := re - rs + 1).
+  assert (S0 : sat64 (cols * rows) = cols * rows).
+  { apply sat64_id. unfold U64MAX. subst cols rows. nia. }
+  rewrite S0.
+  assert (G : forall l v, (forall c, In c l -> In c cs) ->
+    fold_left (fun (acc : outcome (list T)) c =>
+       do v <- acc;
+       do row <- (if rs <=? fst (fst c) then Ok (fst (fst c) - rs) else Panic);
+       do col <- (if cl <=? snd (fst c) then Ok (snd (fst c) - cl) else Panic);
+       if row * cols + col <? cols * rows then Ok (list_set v (N.to_nat (row * cols + col)) (snd c)) else Ok v)
+      l (Ok v) =
+    Ok (fold_left (fun v c =>
+       if sat64 ((fst (fst c) - rs) * cols) + (snd (fst c) - cl) <? cols * rows
+       then list_set v (N.to_nat (sat64 ((fst (fst c) - rs) * cols) + (snd (fst c) - cl))) (snd c) else v)
+      l v)).
+  { induction l as [|x l IH]; intros v Hsub; [reflexivity|]. cbn [fold_left obind].
+    destruct (H x (Hsub x (or_introl eq_refl))) as [A1 [A2 A3]].
+    apply N.leb_le in A1 as A1', A3 as A3'. rewrite A1', A3'. cbn [obind].
+    assert (S1 : sat64 ((fst (fst x) - rs) * cols) = (fst (fst x) - rs) * cols).
+    { apply sat64_id. unfold U64MAX. subst cols. nia. }
+    rewrite S1.
+    destruct ((fst (fst x) - rs) * cols + (snd (fst x) - cl) <? cols * rows);
+      apply IH; intros c0 Hc0; apply Hsub; right; exact Hc0. }
+  rewrite G by auto. reflexivity.
+Qed.
+
+Lemma from_sparse_x_eq : forall T (d : T) (cs : list (pos * T)),
+  sorted_by_row cs ->
+  (forall c, In c cs -> fst (fst c) <= 999999999 /\ snd (fst c) <= 999999999) ->
+  from_sparse d cs = Ok (from_sparse_x d cs).
+Proof.
+  intros T d cs HS HB. destruct cs as [|c0 cs]; [reflexivity|].
+  rewrite from_sparse_core. unfold from_sparse_x.
+  pose proof (sorted_by_row_adj T (c0 :: cs) HS) as AS.
+  set (kr := fun c : pos * T => fst (fst c)). set (kc := fun c : pos * T => snd (fst c)).
+  assert (B0 : kr c0 <= 999999999) by (apply (HB c0); left; reflexivity).
+  assert (RL : row_lo (c0 :: cs) = kr c0).
+  { change (row_lo (c0 :: cs)) with (kmin _ kr (c0 :: cs) U32MAX). unfold kmin. cbn [fold_left].
+    assert (E : (if kr c0 <? U32MAX then kr c0 else U32MAX) = kr c0).
+    { destruct (kr c0 <? U32MAX) eqn:E; [reflexivity|]. apply N.ltb_ge in E. unfold U32MAX in *. lia. }
+    rewrite E. apply (kmin_first _ kr). intros c Hc. apply (adj_sorted_ge_first _ kr cs c0 AS c Hc). }
+  assert (RH : row_hi (c0 :: cs) = kr (last (c0 :: cs) c0)).
+  { change (row_hi (c0 :: cs)) with (kmax _ kr (c0 :: cs) 0). apply kmax_last; [exact AS|lia]. }
+  change (fst (fst c0)) with (kr c0). change (fst (fst (last (c0 :: cs) c0))) with (kr (last (c0 :: cs) c0)).
+  rewrite <- RL, <- RH.
+  destruct (kmin_le _ kr (c0 :: cs) U32MAX) as [_ RLle].
+  destruct (kmax_ge _ kr (c0 :: cs) 0) as [_ RHge].
+  destruct (kmin_le _ kc (c0 :: cs) U32MAX) as [_ CLle].
+  destruct (kmax_ge _ kc (c0 :: cs) 0) as [_ CHge].
+  change (kmin _ kr (c0 :: cs) U32MAX) with (row_lo (c0 :: cs)) in RLle.
+  change (kmax _ kr (c0 :: cs) 0) with (row_hi (c0 :: cs)) in RHge.
+  change (kmin _ kc (c0 :: cs) U32MAX) with (col_lo (c0 :: cs)) in CLle.
+  change (kmax _ kc (c0 :: cs) 0) with (col_hi (c0 :: cs)) in CHge.
+  assert (I0 : In c0 (c0 :: cs)) by (left; reflexivity).
+  apply fs_core_eq.
+  - specialize (RLle c0 I0). specialize (RHge c0 I0). lia.
+  - specialize (CLle c0 I0). specialize (CHge c0 I0). lia.
+  - change (row_hi (c0 :: cs)) with (kmax _ kr (c0 :: cs) 0). apply kmax_le_bound; [lia|].
+    intros c Hc. apply (HB c Hc).
+  - change (col_hi (c0 :: cs)) with (kmax _ kc (c0 :: cs) 0). apply kmax_le_bound; [lia|].
+    intros c Hc. apply (HB c Hc).
+  - intros c Hc. split; [apply RLle; exact Hc|]. split; [apply RHge; exact Hc|apply CLle; exact Hc].
 Qed.
 
 (* ------------------------------------------------------------------ the encoded cells as one list *)
@@ -976,18 +1223,17 @@ Qed.
 
 (* the model on any legal encoding is a function of the logical sheet alone *)
 Theorem sheet_model_eq : forall en sh,
-  legal_sheet en sh = true -> known_C01 sh = None ->
-  xlsx_sheet_model parse_f64 en (encode sh) = range_of parse_f64 en (logical sh).
+  legal_sheet en sh = true ->
+  xlsx_sheet_model parse_f64 en (encode sh) = Ok (range_of parse_f64 en (logical sh)).
 Proof.
-  intros en sh Hl Hk. unfold xlsx_sheet_model, xlsx_range, xlsx_range_ref.
+  intros en sh Hl. unfold xlsx_sheet_model, xlsx_range, xlsx_range_ref.
   rewrite sheet_cells_encode by assumption. cbn [obind].
-  unfold lazy_range, lazy_cells, range_of, used_cells_spec.
+  unfold lazy_cells, range_of, used_cells_spec.
   rewrite <- spec_cells_ref.
   rewrite <- (@filter_map_comm _ _ (fun c : pos * dref => (fst c, to_data (snd c)))
                 (fun c => negb (is_rempty (snd c))) (fun c => negb (is_dempty (snd c)))).
   2:{ intros x. cbn [snd]. rewrite is_dempty_to_data. reflexivity. }
-  change DEmpty with (to_data REmpty). rewrite from_sparse_map.
-  unfold nonempty_cells. destruct (from_sparse REmpty _); reflexivity.
+  change DEmpty with (to_data REmpty). rewrite from_sparse_x_map. reflexivity.
 Qed.
 
 Lemma logical_positions : forall sh, map fst (logical sh) = map upos (ucells_rows (es_rows sh)).
@@ -995,7 +1241,8 @@ Proof. intros sh. unfold logical. rewrite logical_u, map_map. reflexivity. Qed.
 
 Theorem range_of_spec : forall en sh,
   legal_sheet en sh = true ->
-  exists r, range_of parse_f64 en (logical sh) = Ok r /\ Wf r /\
+  let r := range_of parse_f64 en (logical sh) in
+  Wf r /\
     rect r = tight_bbox (map fst (used_cells_spec parse_f64 en (logical sh))) /\
     (forall q, get_value r q =
        if in_rect r q then Some (value_at parse_f64 en (logical sh) q) else None).
@@ -1024,7 +1271,11 @@ Proof.
       destruct (@tight_bbox_bound 999999999 (map fst used) s e BU TB) as [B1 B2].
       unfold U32MAX. lia. }
   destruct (@from_sparse_spec xdata DEmpty used PRE) as [r [R1 [R2 [R3 R4]]]].
-  exists r. split; [exact R1|]. split; [exact R2|]. split; [exact R3|].
+  assert (RX : from_sparse DEmpty used = Ok (from_sparse_x DEmpty used)).
+  { apply from_sparse_x_eq; [apply sorted_by_row_of_lex; exact SU|].
+    intros c Hc. rewrite Forall_forall in BU. apply (BU (fst c)). apply in_map. exact Hc. }
+  rewrite RX in R1. inversion R1 as [R1']. unfold range_of. fold L. fold used. rewrite R1'.
+  split; [exact R2|]. split; [exact R3|].
   intros q. rewrite R4. destruct (in_rect r q); [|reflexivity]. f_equal.
   rewrite last_write_find by (apply sorted_nodup; exact SU).
   unfold used, used_cells_spec.
@@ -1035,25 +1286,23 @@ Proof.
 Qed.
 
 Theorem xlsx_sheet_main : forall en sh,
-  legal_sheet en sh = true -> known_C01 sh = None ->
-  xlsx_sheet_model parse_f64 en (encode sh) = range_of parse_f64 en (logical sh) /\
-  exists r, xlsx_sheet_model parse_f64 en (encode sh) = Ok r /\ Wf r /\
+  legal_sheet en sh = true ->
+  let r := range_of parse_f64 en (logical sh) in
+  xlsx_sheet_model parse_f64 en (encode sh) = Ok r /\ Wf r /\
     rect r = tight_bbox (map fst (used_cells_spec parse_f64 en (logical sh))) /\
     (forall q, get_value r q =
        if in_rect r q then Some (value_at parse_f64 en (logical sh) q) else None).
 Proof.
-  intros en sh Hl Hk. split; [apply sheet_model_eq; assumption|].
-  rewrite sheet_model_eq by assumption. apply range_of_spec. exact Hl.
+  intros en sh Hl. split; [apply sheet_model_eq; assumption|]. apply range_of_spec. exact Hl.
 Qed.
 
 (* independence of the physical encoding *)
 Theorem encoding_independent : forall en sh1 sh2,
   legal_sheet en sh1 = true -> legal_sheet en sh2 = true ->
-  known_C01 sh1 = None -> known_C01 sh2 = None ->
   logical sh1 = logical sh2 ->
   xlsx_sheet_model parse_f64 en (encode sh1) = xlsx_sheet_model parse_f64 en (encode sh2).
 Proof.
-  intros en sh1 sh2 H1 H2 K1 K2 E. rewrite !sheet_model_eq by assumption. rewrite E. reflexivity.
+  intros en sh1 sh2 H1 H2 E. rewrite !sheet_model_eq by assumption. rewrite E. reflexivity.
 Qed.
 
 (* ------------------------------------------------------------------ (2) explicit and implicit references agree *)
@@ -1088,40 +1337,28 @@ Proof.
   unfold logical_row. cbn [explicit_row er_cells er_row]. rewrite map_map. reflexivity.
 Qed.
 
-Lemma known_explicit : forall sh, known_C01 (all_explicit sh) = known_C01 sh.
-Proof.
-  intros sh. unfold known_C01, all_explicit. cbn [es_rows].
-  assert (E : forall rs, existsb (fun r => existsb known_cell (er_cells r)) (map explicit_row rs) =
-                         existsb (fun r => existsb known_cell (er_cells r)) rs).
-  { induction rs as [|r rs IH]; [reflexivity|]. cbn [map existsb]. rewrite IH. f_equal.
-    cbn [explicit_row er_cells]. induction (er_cells r) as [|c cs IHc]; [reflexivity|].
-    cbn [map existsb]. rewrite IHc. reflexivity. }
-  rewrite E. reflexivity.
-Qed.
-
 Theorem cursor_equiv : forall en sh,
-  legal_sheet en sh = true -> known_C01 sh = None ->
+  legal_sheet en sh = true ->
   legal_sheet en (all_explicit sh) = true /\
   (exists cs, sheet_cells parse_f64 en (encode sh) = Ok (Some cs) /\
               sheet_cells parse_f64 en (encode (all_explicit sh)) = Ok (Some cs) /\
               map fst cs = map fst (logical sh)) /\
   xlsx_sheet_model parse_f64 en (encode sh) = xlsx_sheet_model parse_f64 en (encode (all_explicit sh)).
 Proof.
-  intros en sh Hl Hk.
+  intros en sh Hl.
   assert (L2 : legal_sheet en (all_explicit sh) = true).
   { unfold XlsxSheet.legal_sheet in *. cbn [all_explicit es_pfx es_dim es_pre es_pre2 es_junk0 es_rows].
     repeat (apply andb_split in Hl; destruct Hl as [Hl ?]).
     rewrite Hl, H0, H1, H2, H3. apply legal_rows_explicit. exact H. }
   split; [exact L2|]. split.
   - exists (sheet_cells_ref en sh). split; [apply sheet_cells_encode; assumption|]. split.
-    + rewrite sheet_cells_encode; [| exact L2 | rewrite known_explicit; exact Hk].
+    + rewrite sheet_cells_encode by exact L2.
       do 2 f_equal. unfold sheet_cells_ref, all_explicit. cbn [es_rows].
       induction (es_rows sh) as [|r rs IH]; [reflexivity|]. cbn [map flat_map]. rewrite IH. f_equal.
       unfold row_cells. cbn [explicit_row er_cells er_row]. rewrite map_map. reflexivity.
     + unfold sheet_cells_ref. rewrite ref_cells_u, logical_positions, map_map. reflexivity.
   - apply encoding_independent; try assumption.
-    + rewrite known_explicit. exact Hk.
-    + symmetry. apply logical_explicit.
+    symmetry. apply logical_explicit.
 Qed.
 
 (* ------------------------------------------------------------------ (3) the typing table of read_v *)
@@ -1136,7 +1373,11 @@ Theorem typing_table : forall en v a,
   let idx := match parse_usize v with Some i => i | None => 0 end in
   match get_attribute a a_t with
   | None =>
-      read_v en v a = match parse_f64 v with Some bits => Cont (num bits) | None => Cont (RString v) end
+      read_v en v a =
+      match v with
+      | [] => Cont REmpty
+      | _ => match parse_f64 v with Some bits => Cont (num bits) | None => Cont (RString v) end
+      end
   | Some t =>
       (t = v_n -> read_v en v a =
          match v with
@@ -1144,9 +1385,9 @@ Theorem typing_table : forall en v a,
          | _ => match parse_f64 v with Some bits => Cont (num bits) | None => Fail E_PARSEFLOAT end
          end) /\
       (t = v_s -> read_v en v a =
-         match nth_N (e_strings en) idx with Some s => Cont (RShared s) | None => Boom end) /\
+         match nth_N (e_strings en) idx with Some s => Cont (RShared s) | None => Fail E_OUT_OF_RANGE end) /\
       (t = v_str -> read_v en v a = Cont (RString (unescape_xstring v))) /\
-      (t = v_b -> read_v en v a = Cont (RBool (negb (str_eqb v v_0)))) /\
+      (t = v_b -> read_v en v a = Cont (RBool (negb (str_eqb v v_0) && negb (str_eqb v v_false)))) /\
       (t = v_e -> read_v en v a =
          match parse_cell_error v with Some c => Cont (RError c) | None => Fail E_CELLERROR end) /\
       (t = v_d -> read_v en v a = Cont (RDateTimeIso v)) /\
@@ -1164,9 +1405,6 @@ Proof.
   intros en v a fmt num idx. split; [|intros bits; reflexivity].
   unfold XlsxSheet.read_v. fold fmt. destruct (get_attribute a a_t) as [t|]; [|reflexivity].
   repeat split; intros; subst; try reflexivity.
-  - change (str_eqb v_s v_s) with true. cbn iota. fold idx. unfold nth_N.
-    destruct (idx <? N.of_nat (length (e_strings en))) eqn:E; [|reflexivity].
-    destruct (nth_error (e_strings en) (N.to_nat idx)); reflexivity.
   - rewrite !str_eqb_neq by assumption. reflexivity.
 Qed.
 
@@ -1274,6 +1512,451 @@ Proof.
   intros h s H. induction s as [|c s IH]; [reflexivity|]. cbn. rewrite H, N.eqb_refl. exact IH.
 Qed.
 
+(* ------------------------------------------------------------------ totality after the hardening (for C06) *)
+Definition total {A} (o : outcome A) : Prop := o <> Panic /\ o <> OutOfFuel.
+
+Lemma total_bind : forall A B (o : outcome A) (f : A -> outcome B),
+  total o -> (forall a, total (f a)) -> total (obind o f).
+Proof.
+  intros A B o f [H1 H2] Hf. destruct o; cbn [obind]; try contradiction; [apply Hf|split; discriminate].
+Qed.
+
+Lemma total_ok : forall A (a : A), total (Ok a). Proof. split; discriminate. Qed.
+Lemma total_err : forall A e, total (@Err A e). Proof. split; discriminate. Qed.
+
+Lemma get_row_column_x_total : forall r, total (get_row_column_x r).
+Proof.
+  intros r. unfold get_row_column_x. apply total_bind; [apply scanner_no_panic|].
+  intros [a [c|]]; cbn [snd]; [apply total_ok|apply total_err].
+Qed.
+Lemma get_row_x_total : forall r, total (get_row_x r).
+Proof.
+  intros r. unfold get_row_x. apply total_bind; [apply scanner_no_panic|]. intros a. apply total_ok.
+Qed.
+Lemma collect_parts_x_total : forall ps, total (collect_parts_x ps).
+Proof.
+  induction ps as [|p ps IH]; [apply total_ok|]. cbn [collect_parts_x].
+  apply total_bind; [apply get_row_column_x_total|]. intros x.
+  apply total_bind; [exact IH|]. intros xs. apply total_ok.
+Qed.
+Lemma get_dimension_x_total : forall dm, total (get_dimension_x dm).
+Proof.
+  intros dm. unfold get_dimension_x. apply total_bind; [apply collect_parts_x_total|].
+  intros [|p0 [|p1 [|p2 ps]]]; first [apply total_ok | apply total_err].
+Qed.
+
+Lemma reader_new_total : forall evs sht d, total (reader_new_loop sht d evs).
+Proof.
+  induction evs as [|e evs IH]; intros sht d; [apply total_err|].
+  destruct e as [n a|n|s|s|]; cbn [reader_new_loop]; try apply IH.
+  destruct (is_local n_dimension n).
+  - destruct (get_attribute a a_ref); [|apply total_err].
+    apply total_bind; [apply get_dimension_x_total|]. intros d'. apply IH.
+  - destruct (is_local n_sheetData n); [apply total_ok|apply IH].
+Qed.
+
+Lemma read_v_no_boom : forall pf en v a, read_v pf en v a <> Boom.
+Proof.
+  intros pf en v a. unfold read_v.
+  repeat match goal with
+         | |- context [match ?x with _ => _ end] => destruct x
+         | |- context [if ?x then _ else _] => destruct x
+         end; discriminate.
+Qed.
+
+Lemma rs_step_no_boom : forall closing st e, rs_step closing st e <> Boom.
+Proof.
+  intros closing st e. unfold rs_step.
+  repeat match goal with
+         | |- context [match ?x with _ => _ end] => destruct x
+         | |- context [if ?x then _ else _] => destruct x
+         end; discriminate.
+Qed.
+
+Lemma cc_step_no_boom : forall pf en a st e, cc_step pf en a st e <> Boom.
+Proof.
+  intros pf en a st e. destruct st as [v|closing rs|vn acc|fn dp]; cbn [cc_step].
+  - destruct e; try discriminate;
+      repeat match goal with |- context [if ?x then _ else _] => destruct x end; discriminate.
+  - pose proof (rs_step_no_boom closing rs e). destruct (rs_step closing rs e); try discriminate. contradiction.
+  - destruct e; try discriminate. destruct (str_eqb name vn); [|discriminate].
+    pose proof (read_v_no_boom pf en acc a). destruct (read_v pf en acc a); try discriminate. contradiction.
+  - destruct e; try discriminate;
+      repeat match goal with |- context [if ?x then _ else _] => destruct x end; discriminate.
+Qed.
+
+Lemma lift_sh_total : forall o, total o -> lift_sh o <> SBoom.
+Proof. intros o [H1 H2]. destruct o; cbn; try discriminate; contradiction. Qed.
+
+Lemma cells_step_no_boom : forall pf en st e, cells_step pf en st e <> SBoom.
+Proof.
+  intros pf en st e. destruct st as [row col|row col p a cst]; cbn [cells_step].
+  - destruct e as [n a|n|s|s|]; try discriminate.
+    + destruct (is_local n_row n).
+      * destruct (get_attribute a a_r); [|discriminate]. apply lift_sh_total.
+        apply total_bind; [apply get_row_x_total|]. intros r. apply total_ok.
+      * destruct (is_local n_c n); [|discriminate].
+        destruct (get_attribute a a_r); [|discriminate]. apply lift_sh_total.
+        apply total_bind; [apply get_row_column_x_total|]. intros r. apply total_ok.
+    + destruct (is_local n_row n); [destruct (row + 1 <=? U32MAX); discriminate|].
+      destruct (is_local n_sheetData n); discriminate.
+  - pose proof (cc_step_no_boom pf en a cst e). destruct (cc_step pf en a cst e); try discriminate.
+    + destruct (col + 1 <=? U32MAX); discriminate.
+    + contradiction.
+Qed.
+
+Lemma cells_run_total : forall pf en evs st racc, total (cells_run pf en st racc evs).
+Proof.
+  induction evs as [|e evs IH]; intros st racc; [apply total_err|]. cbn [cells_run].
+  pose proof (cells_step_no_boom pf en st e).
+  destruct (cells_step pf en st e); try apply IH; try apply total_ok; try apply total_err. contradiction.
+Qed.
+
+(* worksheet_range / worksheet_range_ref never panic, whatever the events, strings, formats, header row *)
+Theorem sheet_no_panic : forall pf en h evs,
+  total (xlsx_range_ref pf en h evs) /\ total (xlsx_range pf en h evs).
+Proof.
+  intros pf en h evs.
+  assert (T : total (xlsx_range_ref pf en h evs)).
+  { unfold xlsx_range_ref, sheet_cells. pose proof (reader_new_total evs false dims0) as [R1 R2].
+    unfold reader_new. destruct (reader_new_loop false dims0 evs) as [[d rest]|e| |]; try contradiction.
+    - pose proof (cells_run_total pf en rest (ShOuter 0 0) []) as [C1 C2].
+      destruct (cells_run pf en (ShOuter 0 0) [] rest); cbn [obind]; try contradiction;
+        [apply total_ok|apply total_err].
+    - destruct (e =? E_NOT_WORKSHEET); cbn [obind]; [apply total_ok|apply total_err]. }
+  split; [exact T|]. unfold xlsx_range. apply total_bind; [exact T|]. intros r. apply total_ok.
+Qed.
+
+(* ------------------------------------------------------------------ (6) the workbook level *)
+Ltac loc := repeat rewrite is_local_qn by (first [assumption | reflexivity]).
+Lemma no_colon_app_colon : forall p l, no_colon (p ++ XmlText.COLON :: l) = false.
+Proof.
+  induction p as [|c p IH]; intros l; cbn.
+  - rewrite N.eqb_refl. reflexivity.
+  - rewrite IH. apply andb_false_r.
+Qed.
+
+Lemma qn_prefixed_neq : forall pfx l k, pfx <> [] -> no_colon k = true -> str_eqb (qn pfx l) k = false.
+Proof.
+  intros pfx l k Hp Hk. apply str_eqb_neq. intros E. unfold XmlText.qn in E.
+  destruct pfx as [|c p]; [contradiction|]. rewrite <- E in Hk.
+  change ((c :: p) ++ XmlText.COLON :: l) with ((c :: p) ++ XmlText.COLON :: l) in Hk.
+  rewrite no_colon_app_colon in Hk. discriminate.
+Qed.
+
+Lemma rid_attr_ok : forall fixed wb, known_C01_wb_gen fixed wb = None ->
+  no_colon (wb_relpfx wb) = true -> wb_relpfx wb <> [] ->
+  is_rid_attr_gen fixed (qn (wb_relpfx wb) a_id) = true.
+Proof.
+  intros fixed wb Hk Hn Hne. unfold is_rid_attr_gen, known_C01_wb_gen in *. destruct fixed.
+  - unfold has_prefix. rewrite local_name_qn by (first [assumption | reflexivity]).
+    unfold XmlText.qn. destruct (wb_relpfx wb) as [|c p] eqn:E; [contradiction|].
+    rewrite after_colon_app by exact Hn. reflexivity.
+  - cbn [orb] in Hk.
+    destruct (str_eqb (wb_relpfx wb) r_prefix) eqn:E1.
+    + apply str_eqb_eq in E1. rewrite E1. reflexivity.
+    + destruct (str_eqb (wb_relpfx wb) relationships_prefix) eqn:E2; [|discriminate].
+      apply str_eqb_eq in E2. rewrite E2. reflexivity.
+Qed.
+
+Lemma str_distinct_nodup : forall l, str_distinct l = true -> NoDup l.
+Proof.
+  induction l as [|x l IH]; intros H; constructor.
+  - cbn in H. apply andb_true_iff in H. destruct H as [H _]. intros Hin.
+    rewrite forallb_forall in H. specialize (H _ Hin). rewrite str_eqb_refl in H. discriminate.
+  - apply IH. cbn in H. apply andb_true_iff in H. tauto.
+Qed.
+
+Lemma find_fst_nodup : forall (l : list (str * str)) k v, NoDup (map fst l) -> In (k, v) l ->
+  find (fun p => str_eqb (fst p) k) l = Some (k, v).
+Proof.
+  induction l as [|[k' v'] l IH]; intros k v Hn Hin; [contradiction|].
+  cbn [map fst] in Hn. inversion Hn as [|? ? Hni Hn']; subst. cbn [find fst].
+  destruct Hin as [Hin|Hin].
+  - inversion Hin; subst. rewrite str_eqb_refl. reflexivity.
+  - destruct (str_eqb k' k) eqn:E.
+    + apply str_eqb_eq in E. subst k'. exfalso. apply Hni. apply in_map_iff. exists (k, v). tauto.
+    + apply IH; assumption.
+Qed.
+
+(* --- read_relationships on the encoded part --- *)
+Definition rel_pair (s : esheetref) : str * str := (sr_rid s, spell (sr_spelling s) (sr_part s)).
+
+Lemma rels_read : forall pfx sheets acc rest, no_colon pfx = true ->
+  read_relationships acc
+    (flat_map (fun s => elem pfx n_Relationship [(a_Id, sr_rid s); (a_Target, spell (sr_spelling s) (sr_part s))] [])
+              sheets ++ End (qn pfx n_Relationships) :: rest) =
+  Ok (rev (map rel_pair sheets) ++ acc).
+Proof.
+  induction sheets as [|s sheets IH]; intros acc rest Hp.
+  - cbn [flat_map app read_relationships]. loc. reflexivity.
+  - cbn [flat_map]. unfold elem at 1. cbn [app read_relationships]. loc.
+    change (str_eqb n_Relationship n_Relationship) with true.
+    change (str_eqb n_Relationship n_Relationships) with false. cbn iota.
+    rewrite IH by exact Hp. cbn [map rev]. rewrite <- app_assoc.
+    cbn [rel_attrs]. change (str_eqb a_Id a_Id) with true. change (str_eqb a_Target a_Id) with false.
+    change (str_eqb a_Target a_Target) with true. cbn iota. reflexivity.
+Qed.
+
+Lemma rels_events_read : forall wb, no_colon (wb_relspfx wb) = true ->
+  read_relationships [] (rels_events wb) = Ok (rev (map rel_pair (wb_sheets wb))).
+Proof.
+  intros wb Hp. unfold rels_events. unfold elem at 1. cbn [read_relationships]. loc.
+  change (str_eqb n_Relationships n_Relationship) with false. cbn iota.
+  rewrite (@rels_read (wb_relspfx wb) (wb_sheets wb) [] [] Hp). rewrite app_nil_r. reflexivity.
+Qed.
+
+Lemma rel_get_sheet : forall sheets s, str_distinct (map sr_rid sheets) = true -> In s sheets ->
+  rel_get (rev (map rel_pair sheets)) (sr_rid s) = Some (spell (sr_spelling s) (sr_part s)).
+Proof.
+  intros sheets s Hd Hin. unfold rel_get.
+  rewrite (@find_fst_nodup _ (sr_rid s) (spell (sr_spelling s) (sr_part s))); [reflexivity| |].
+  - rewrite map_rev, map_map. cbn [rel_pair fst]. apply NoDup_rev. apply str_distinct_nodup. exact Hd.
+  - apply -> in_rev. apply in_map_iff. exists s. split; [reflexivity|exact Hin].
+Qed.
+
+(* --- parts --- *)
+Lemma starts_with_split : forall p s, starts_with p s = true -> exists r, s = p ++ r.
+Proof.
+  induction p as [|x p IH]; intros s H; [exists s; reflexivity|].
+  destruct s as [|y s]; [discriminate|]. cbn in H. apply andb_true_iff in H. destruct H as [H1 H2].
+  apply N.eqb_eq in H1. subst y. destruct (IH _ H2) as [r E]. exists r. rewrite E. reflexivity.
+Qed.
+
+Lemma part_ok_path : forall part sp, part_ok part = true ->
+  normalize_target (spell sp part) = p_xl ++ part /\ exists k, sheet_type_of (p_xl ++ part) = Some k.
+Proof.
+  intros part sp H. unfold part_ok, folder_names in H. cbn [existsb] in H.
+  destruct (sheet_type_of_folder) as [_ _] || idtac.
+  assert (D : exists f rest, In f folder_names /\ part = f ++ SLASH :: rest).
+  { repeat (apply orb_true_iff in H; destruct H as [H|H]); try discriminate;
+      apply starts_with_split in H; destruct H as [r E]; rewrite <- app_assoc in E; cbn [app] in E;
+      eexists; exists r; (split; [|exact E]); cbn; auto. }
+  destruct D as [f [rest [Hf E]]]. subst part.
+  destruct (sheet_type_of_folder rest) as [T0 [T1 [T2 T3]]].
+  cbn in Hf. destruct Hf as [Hf|[Hf|[Hf|[Hf|[]]]]]; subst f; (split; [apply target_normal_form; reflexivity|]).
+  - exists 0. exact T0.
+  - exists 1. exact T1.
+  - exists 2. exact T2.
+  - exists 3. exact T3.
+Qed.
+
+(* --- the attribute loop of <sheet> --- *)
+Lemma sheet_attrs_extra : forall rels extra rest name path,
+  forallb sheet_attr_ok extra = true ->
+  sheet_attrs rels (extra ++ rest) name path = sheet_attrs rels rest name path.
+Proof.
+  induction extra as [|[k v] extra IH]; intros rest name path H; [reflexivity|].
+  cbn [forallb] in H. apply andb_true_iff in H. destruct H as [H1 H2].
+  unfold sheet_attr_ok in H1. cbn [fst snd] in H1.
+  apply andb_true_iff in H1. destruct H1 as [H1 Hst]. apply andb_true_iff in H1. destruct H1 as [Hn Hr].
+  apply negb_true_iff in Hn, Hr. cbn [app sheet_attrs]. rewrite Hn.
+  destruct (str_eqb k a_state) eqn:Es.
+  - cbn [negb orb] in Hst. rewrite Hst. apply IH. exact H2.
+  - rewrite Hr. apply IH. exact H2.
+Qed.
+
+Definition name_path (s : esheetref) : str * str := (sr_name s, p_xl ++ sr_part s).
+
+Lemma sheet_elem_read : forall wb sheets0 s,
+  legal_workbook wb = true -> known_C01_wb wb = None -> In s (wb_sheets wb) ->
+  sheets0 = wb_sheets wb ->
+  sheet_attrs (rev (map rel_pair sheets0))
+    ((a_name, sr_name s) :: sr_extra s ++ [(qn (wb_relpfx wb) a_id, sr_rid s)]) [] [] =
+  Ok (name_path s) /\ exists k, sheet_type_of (p_xl ++ sr_part s) = Some k.
+Proof.
+  intros wb sheets0 s Hl Hk Hin E0. subst sheets0. unfold legal_workbook in Hl.
+  apply andb_true_iff in Hl. destruct Hl as [Hl Hrid].
+  apply andb_true_iff in Hl. destruct Hl as [Hl Hname].
+  apply andb_true_iff in Hl. destruct Hl as [Hl Hsheets].
+  apply andb_true_iff in Hl. destruct Hl as [Hl Hne].
+  apply andb_true_iff in Hl. destruct Hl as [Hl Hrel].
+  apply andb_true_iff in Hl. destruct Hl as [Hpfx Hrels].
+  rewrite forallb_forall in Hsheets. specialize (Hsheets _ Hin).
+  apply andb_true_iff in Hsheets. destruct Hsheets as [Hpart Hextra].
+  assert (NE : wb_relpfx wb <> []) by (destruct (wb_relpfx wb); [discriminate|discriminate]).
+  destruct (@part_ok_path (sr_part s) (sr_spelling s) Hpart) as [NT TY].
+  split; [|exact TY].
+  cbn [sheet_attrs]. change (str_eqb a_name a_name) with true. cbn iota.
+  rewrite sheet_attrs_extra by exact Hextra. cbn [sheet_attrs].
+  rewrite qn_prefixed_neq by (first [exact NE | reflexivity]).
+  rewrite qn_prefixed_neq by (first [exact NE | reflexivity]).
+  unfold sheet_rid_attr. rewrite (@rid_attr_ok rid_fix_applied wb Hk Hrel NE).
+  rewrite rel_get_sheet by assumption. rewrite NT. reflexivity.
+Qed.
+
+Lemma wb_sheets_read : forall wb rels f sheets racc rest,
+  no_colon (wb_pfx wb) = true ->
+  (forall s, In s sheets ->
+     sheet_attrs rels ((a_name, sr_name s) :: sr_extra s ++ [(qn (wb_relpfx wb) a_id, sr_rid s)]) [] [] =
+     Ok (name_path s) /\ exists k, sheet_type_of (p_xl ++ sr_part s) = Some k) ->
+  read_workbook rels None f racc
+    (flat_map (fun s => elem (wb_pfx wb) n_sheet
+                 ((a_name, sr_name s) :: sr_extra s ++ [(qn (wb_relpfx wb) a_id, sr_rid s)]) [])
+              sheets ++ rest) =
+  read_workbook rels None f (rev (map name_path sheets) ++ racc) rest.
+Proof.
+  induction sheets as [|s sheets IH]; intros racc rest Hp H; [reflexivity|].
+  cbn [flat_map]. unfold elem at 1. cbn [app read_workbook]. loc.
+  change (str_eqb n_sheet n_sheet) with true. cbn iota.
+  destruct (H s (or_introl eq_refl)) as [HA [k HT]]. rewrite HA. unfold name_path at 1.
+  rewrite HT. change (str_eqb n_sheet n_workbook) with false. cbn iota.
+  rewrite IH; [|exact Hp|intros s' Hs'; apply H; right; exact Hs'].
+  cbn [map rev]. rewrite <- app_assoc. reflexivity.
+Qed.
+
+Lemma workbook_events_read : forall wb,
+  legal_workbook wb = true -> known_C01_wb wb = None ->
+  read_workbook (rev (map rel_pair (wb_sheets wb))) None false [] (workbook_events wb) =
+  Ok (map name_path (wb_sheets wb), date_flag wb).
+Proof.
+  intros wb Hl Hk. pose proof Hl as Hl0. unfold legal_workbook in Hl.
+  repeat (apply andb_true_iff in Hl; destruct Hl as [Hl ?]). rename Hl into Hp.
+  unfold workbook_events. unfold elem at 1 2 3. cbn [app read_workbook]. loc.
+  change (str_eqb n_workbook n_sheet) with false. change (str_eqb n_workbook n_workbookPr) with false.
+  change (str_eqb n_workbook n_definedName) with false. cbn iota.
+  assert (P : forall rest,
+    read_workbook (rev (map rel_pair (wb_sheets wb))) None false []
+      (match wb_date1904 wb with
+       | Some v => Start (qn (wb_pfx wb) n_workbookPr) [(a_date1904, v)] :: [] ++ [End (qn (wb_pfx wb) n_workbookPr)]
+       | None => []
+       end ++ rest) =
+    read_workbook (rev (map rel_pair (wb_sheets wb))) None (date_flag wb) [] rest).
+  { intros rest. unfold date_flag. destruct (wb_date1904 wb) as [v|]; [|reflexivity].
+    cbn [app read_workbook]. loc.
+    change (str_eqb n_workbookPr n_sheet) with false. change (str_eqb n_workbookPr n_workbookPr) with true.
+    change (str_eqb n_workbookPr n_workbook) with false. cbn iota.
+    cbn [XmlText.get_attribute]. change (str_eqb a_date1904 a_date1904) with true. reflexivity. }
+  rewrite <- app_assoc. rewrite P. cbn [app read_workbook]. loc.
+  change (str_eqb n_sheets n_sheet) with false. change (str_eqb n_sheets n_workbookPr) with false.
+  change (str_eqb n_sheets n_definedName) with false. cbn iota.
+  rewrite <- app_assoc. rewrite wb_sheets_read; [|exact Hp|].
+  2:{ intros s Hs. apply sheet_elem_read; auto. }
+  cbn [app read_workbook]. loc.
+  change (str_eqb n_sheets n_workbook) with false. change (str_eqb n_workbook n_workbook) with true.
+  cbn iota. rewrite app_nil_r, rev_involutive. reflexivity.
+Qed.
+
+(* --- part lookup in a package whose names are distinct up to ASCII case --- *)
+Lemma find_part_distinct : forall A (pk : list (str * A)) n x p,
+  eic_distinct (map fst pk) = true -> In (n, x) pk -> eq_ignore_ascii_case n p = true ->
+  find_part pk p = Some (n, x).
+Proof.
+  unfold find_part. induction pk as [|[m y] pk IH]; intros n x p Hd Hin He; [contradiction|].
+  cbn [map fst eic_distinct] in Hd. apply andb_true_iff in Hd. destruct Hd as [Hm Hd].
+  cbn [find fst]. destruct Hin as [Hin|Hin].
+  - inversion Hin; subst. rewrite He. reflexivity.
+  - destruct (eq_ignore_ascii_case m p) eqn:E.
+    + exfalso. rewrite forallb_forall in Hm.
+      assert (Hn : In n (map fst pk)) by (apply in_map_iff; exists (n, x); tauto).
+      specialize (Hm _ Hn). apply negb_true_iff in Hm.
+      rewrite (eic_trans m p n E) in Hm; [discriminate|]. rewrite eic_sym. exact He.
+    + apply IH; assumption.
+Qed.
+
+Lemma reader_new_other : forall evs sht d, forallb pre_ok evs = true ->
+  reader_new_loop sht d evs = Err (if sht || existsb is_start evs then E_NOT_WORKSHEET else E_EOF).
+Proof.
+  induction evs as [|e evs IH]; intros sht d H.
+  - cbn. rewrite orb_false_r. reflexivity.
+  - cbn [forallb] in H. apply andb_true_iff in H. destruct H as [H1 H2].
+    destruct e as [n a|n|s|s|]; cbn [reader_new_loop existsb is_start].
+    + cbn in H1. apply andb_true_iff in H1. destruct H1 as [Ha Hb]. apply negb_true_iff in Ha, Hb.
+      rewrite Ha, Hb. rewrite IH by exact H2. cbn [orb]. rewrite orb_true_r. reflexivity.
+    + rewrite IH by exact H2. reflexivity.
+    + rewrite IH by exact H2. reflexivity.
+    + rewrite IH by exact H2. reflexivity.
+    + rewrite IH by exact H2. reflexivity.
+Qed.
+
+Lemma content_model : forall parse_f64 en c, legal_content parse_f64 en c = true ->
+  xlsx_sheet_model parse_f64 en (content_events c) = sheet_spec parse_f64 en c.
+Proof.
+  intros parse_f64 en c H. destruct c as [sh|evs]; cbn [legal_content content_events sheet_spec] in *.
+  - apply sheet_model_eq. exact H.
+  - apply andb_true_iff in H. destruct H as [H1 H2].
+    unfold xlsx_sheet_model, xlsx_range, xlsx_range_ref, sheet_cells, reader_new.
+    rewrite reader_new_other by exact H1. rewrite H2. cbn [orb].
+    change (E_NOT_WORKSHEET =? E_NOT_WORKSHEET) with true. reflexivity.
+Qed.
+
+Lemma find_name_distinct : forall sheets s, str_distinct (map sr_name sheets) = true -> In s sheets ->
+  find (fun p : str * str => str_eqb (fst p) (sr_name s)) (map name_path sheets) = Some (name_path s).
+Proof.
+  intros sheets s Hd Hin. unfold name_path at 2.
+  apply find_fst_nodup.
+  - rewrite map_map. cbn [name_path fst]. apply str_distinct_nodup. exact Hd.
+  - apply in_map_iff. exists s. split; [reflexivity|exact Hin].
+Qed.
+
+Theorem xlsx_workbook_main : forall parse_f64 strings formats wb pk,
+  legal_workbook wb = true -> known_C01_wb wb = None ->
+  package_holds parse_f64 strings formats wb pk ->
+  let en := mkEnv strings formats (date_flag wb) in
+  let sheets := map name_path (wb_sheets wb) in
+  open_sheets pk = Ok (sheets, date_flag wb) /\
+  (forall s, In s (wb_sheets wb) ->
+     workbook_range parse_f64 strings formats pk sheets (date_flag wb) (sr_name s) =
+     sheet_spec parse_f64 en (sr_content s)) /\
+  workbook_ranges parse_f64 strings formats pk =
+    Ok (map (fun s => (sr_name s, sheet_spec parse_f64 en (sr_content s))) (wb_sheets wb)).
+Proof.
+  intros parse_f64 strings formats wb pk Hl Hk [Hd [[nr [Hr1 Hr2]] [[nw [Hw1 Hw2]] Hs]]] en sheets.
+  pose proof Hl as Hl0. unfold legal_workbook in Hl.
+  repeat (apply andb_true_iff in Hl; destruct Hl as [Hl ?]).
+  assert (OS : open_sheets pk = Ok (sheets, date_flag wb)).
+  { unfold open_sheets.
+    rewrite (@find_part_distinct _ pk nr (rels_events wb) p_workbook_rels Hd Hr1 Hr2).
+    rewrite rels_events_read by assumption. cbn [obind].
+    rewrite (@find_part_distinct _ pk nw (workbook_events wb) p_workbook_xml Hd Hw1 Hw2).
+    apply workbook_events_read; assumption. }
+  assert (WR : forall s, In s (wb_sheets wb) ->
+     workbook_range parse_f64 strings formats pk sheets (date_flag wb) (sr_name s) =
+     sheet_spec parse_f64 en (sr_content s)).
+  { intros s Hin. unfold workbook_range, sheets.
+    rewrite find_name_distinct by assumption. unfold name_path at 1.
+    destruct (Hs s Hin) as [n [Hn1 [Hn2 Hn3]]].
+    rewrite (@find_part_distinct _ pk n _ (p_xl ++ sr_part s) Hd Hn1 Hn2).
+    apply content_model. exact Hn3. }
+  split; [exact OS|]. split; [exact WR|].
+  unfold workbook_ranges. rewrite OS. cbn [obind fst snd]. f_equal. unfold sheets.
+  rewrite map_map. apply map_ext_in. intros s Hin. cbn [name_path fst]. f_equal. apply WR. exact Hin.
+Qed.
+
+(* worksheets(): every sheet in workbook order; the worksheets with the range their part denotes,
+   the other kinds of sheet with the empty range *)
+Theorem xlsx_worksheets_main : forall parse_f64 strings formats wb pk,
+  legal_workbook wb = true -> known_C01_wb wb = None ->
+  package_holds parse_f64 strings formats wb pk ->
+  let en := mkEnv strings formats (date_flag wb) in
+  exists l, worksheets_model parse_f64 strings formats pk = Ok l /\
+    map fst l = map sr_name (wb_sheets wb) /\
+    Forall2 (fun nr s => sheet_spec parse_f64 en (sr_content s) = Ok (snd nr)) l (wb_sheets wb).
+Proof.
+  intros parse_f64 strings formats wb pk Hl Hk Hp en.
+  destruct (@xlsx_workbook_main parse_f64 strings formats wb pk Hl Hk Hp) as [_ [_ WR]].
+  unfold worksheets_model. rewrite WR. cbn [obind].
+  destruct Hp as [_ [_ [_ Hs]]].
+  assert (G : forall sl, (forall s, In s sl -> In s (wb_sheets wb)) ->
+    exists l,
+      flat_map (fun nr : str * outcome (range xdata) =>
+                  match snd nr with Ok r => [(fst nr, r)] | _ => [] end)
+               (map (fun s => (sr_name s, sheet_spec parse_f64 en (sr_content s))) sl) = l /\
+      map fst l = map sr_name sl /\
+      Forall2 (fun nr s => sheet_spec parse_f64 en (sr_content s) = Ok (snd nr)) l sl).
+  { induction sl as [|s sl IH]; intros Hsub.
+    - exists []. repeat split. constructor.
+    - destruct IH as [l [E1 [E2 E3]]]; [intros s' Hs'; apply Hsub; right; exact Hs'|].
+      destruct (Hs s (Hsub s (or_introl eq_refl))) as [n [_ [_ Hc]]].
+      assert (OKR : exists r, sheet_spec parse_f64 en (sr_content s) = Ok r).
+      { destruct (sr_content s) as [sh|evs]; cbn [sheet_spec]; eexists; reflexivity. }
+      destruct OKR as [r R]. exists ((sr_name s, r) :: l). cbn [map flat_map fst snd]. rewrite R.
+      cbn [app]. rewrite E1. split; [reflexivity|]. split; [cbn [map fst]; rewrite E2; reflexivity|].
+      constructor; [exact R|exact E3]. }
+  destruct (G (wb_sheets wb) (fun s H => H)) as [l [E1 [E2 E3]]].
+  exists l. split; [f_equal; exact E1|]. split; assumption.
+Qed.
+
 (* ------------------------------------------------------------------ witnesses *)
 Module Wit.
 Import Coq.Strings.String.
@@ -1287,7 +1970,7 @@ Definition toy_parse (s : str) : option N :=
 Definition wit_env : env := mkEnv [ascii "zero"; ascii "one"] [NumFmt.Other; NumFmt.DateTime] false.
 
 Definition cellN (col : N) (ex : bool) (v : lvalue) (sf : strform) (st : option N) : ecell :=
-  mkCell col ex false st v sf false None [] [] [].
+  mkCell col ex false st v sf false false None [] [] [].
 
 (* rows 3 (explicit), 4 (implicit), 9 (explicit); implicit cells after explicit ones; a prefix;
    a wrong dimension; ignorable elements and white space everywhere; a style-only cell; an empty row *)
@@ -1302,76 +1985,93 @@ Definition wit_sheet : esheet :=
     [mkRow 2 true [(ascii "spans", ascii "1:3")] [Text [10]]
        [cellN 25 true (LNumber (ascii "42")) SfInline None;
         cellN 26 false (LString (ascii "one")) (SfShared 1) None;
-        mkCell 27 false false (Some 1) (LNumber (ascii "7")) SfInline true (Some (ascii "1+6")) [] [Text [32]] [Other];
+        mkCell 27 false false (Some 1) (LNumber (ascii "7")) SfInline true false (Some (ascii "1+6")) [] [Text [32]] [Other];
         cellN 701 true (LString (ascii "in")) SfInline None;
-        cellN 702 false (LBool true) SfInline None] [Text [10]];
+        mkCell 702 false false None (LBool true) SfInline false true None [] [] []] [Text [10]];
      mkRow 3 false [] []
        [cellN 0 false (LError 1) SfInline None;
-        cellN 1 false LBlank SfInline (Some 1);
+        mkCell 1 false false (Some 1) LBlank SfInline false true None [] [] [];
         cellN 2 false (LString (ascii "f")) SfStr None] [];
      mkRow 5 true [] [] [] [];
      mkRow 8 true [] []
-       [mkCell 730 true true None (LIso (ascii "2021-01-01")) SfInline false None [] [] []] []]
+       [mkCell 730 true true None (LIso (ascii "2021-01-01")) SfInline false false None [] [] [];
+        cellN 731 false (LError 7) SfInline None] []]
     [Start (qn x (ascii "mergeCells")) []; End (qn x (ascii "mergeCells")); End (qn x n_worksheet)].
-
-(* class 1: one #GETTING_DATA cell *)
-Definition wit_sheet_k1 : esheet :=
-  mkSheet [] DimAbsent [Start n_worksheet []] [] []
-    [mkRow 0 true [] [] [cellN 0 true (LString (ascii "a")) SfInline None] [];
-     mkRow 1 true [] [] [cellN 1 true (LError 7) SfInline None] []]
-    [End n_worksheet].
-
-Theorem refuted_getting_data : forall parse_f64,
-  legal_sheet parse_f64 wit_env wit_sheet_k1 = true /\
-  known_C01 wit_sheet_k1 = Some 1 /\
-  xlsx_sheet_model parse_f64 wit_env (encode wit_sheet_k1) = Err E_CELLERROR /\
-  exists r, range_of parse_f64 wit_env (logical wit_sheet_k1) = Ok r /\
-            get_value r (1, 1) = Some (DError 7) /\
-            xlsx_sheet_model parse_f64 wit_env (encode wit_sheet_k1) <> Ok r.
-Proof.
-  intros parse_f64. split; [vm_compute; reflexivity|]. split; [vm_compute; reflexivity|].
-  split; [vm_compute; reflexivity|].
-  eexists. split; [vm_compute; reflexivity|]. split; [vm_compute; reflexivity|].
-  vm_compute. discriminate.
-Qed.
 
 (* class 2 (F30): the same workbook opens with r:id and fails with rel:id *)
 Definition wit_wb (relpfx : str) : eworkbook :=
   mkWorkbook [] relpfx []
-    [mkSheetRef (ascii "First") (ascii "rId1") (ascii "worksheets/sheet1.xml") SpRelative [(a_sheetId, ascii "1")];
-     mkSheetRef (ascii "Second") (ascii "rId2") (ascii "worksheets/sheet2.xml") SpAbsolute [];
-     mkSheetRef (ascii "Third") (ascii "rId3") (ascii "worksheets/sheet3.xml") SpXl []]
+    [mkSheetRef (ascii "First") (ascii "rId1") (ascii "worksheets/sheet1.xml") SpRelative [(a_sheetId, ascii "1")]
+                (SWork wit_sheet);
+     mkSheetRef (ascii "Second") (ascii "rId2") (ascii "chartsheets/sheet2.xml") SpAbsolute
+                [(a_state, v_hidden)] (SOther [Start (ascii "chartsheet") []; End (ascii "chartsheet")]);
+     mkSheetRef (ascii "Third") (ascii "rId3") (ascii "worksheets/sheet3.xml") SpXl [] (SWork wit_sheet)]
     (Some (ascii "1")).
 Definition wit_package (wb : eworkbook) : package :=
   [(ascii "XL/_rels/Workbook.xml.RELS", rels_events wb); (ascii "xl/WORKBOOK.xml", workbook_events wb)].
 
-Theorem refuted_rel_prefix :
+(* holds as long as the model describes the unfixed tree; vacuous once rid_fix_applied is flipped *)
+Theorem refuted_rel_prefix : rid_fix_applied = false ->
   known_C01_wb (wit_wb (ascii "r")) = None /\
   open_sheets (wit_package (wit_wb (ascii "r"))) =
     Ok ([(ascii "First", ascii "xl/worksheets/sheet1.xml");
-         (ascii "Second", ascii "xl/worksheets/sheet2.xml");
+         (ascii "Second", ascii "xl/chartsheets/sheet2.xml");
          (ascii "Third", ascii "xl/worksheets/sheet3.xml")], true) /\
   known_C01_wb (wit_wb (ascii "rel")) = Some 2 /\
   open_sheets (wit_package (wit_wb (ascii "rel"))) = Err E_UNRECOGNIZED.
-Proof. vm_compute. repeat split. Qed.
+Proof. unfold rid_fix_applied. intros H. first [discriminate H | (vm_compute; repeat split)]. Qed.
 
 Example wit_sheet_legal :
-  legal_sheet toy_parse wit_env wit_sheet = true /\ known_C01 wit_sheet = None /\
+  legal_sheet toy_parse wit_env wit_sheet = true /\
   map fst (logical wit_sheet) =
-    [(2, 25); (2, 26); (2, 27); (2, 701); (2, 702); (3, 0); (3, 1); (3, 2); (8, 730)] /\
+    [(2, 25); (2, 26); (2, 27); (2, 701); (2, 702); (3, 0); (3, 1); (3, 2); (8, 730); (8, 731)] /\
   (exists r, xlsx_sheet_model toy_parse wit_env (encode wit_sheet) = Ok r /\
-             start r = Some (2, 0) /\ end_ r = Some (8, 730) /\
+             start r = Some (2, 0) /\ end_ r = Some (8, 731) /\
              get_value r (2, 25) = Some (DFloat 42) /\
              get_value r (2, 26) = Some (DString (ascii "one")) /\
              get_value r (2, 27) = Some (DDateTime 7 false false) /\
              get_value r (2, 702) = Some (DBool true) /\
              get_value r (3, 0) = Some (DError 1) /\
              get_value r (3, 1) = Some DEmpty /\
-             get_value r (8, 730) = Some (DDateTimeIso (ascii "2021-01-01"))).
+             get_value r (8, 730) = Some (DDateTimeIso (ascii "2021-01-01")) /\
+             get_value r (8, 731) = Some (DError 7)).
 Proof.
-  split; [vm_compute; reflexivity|]. split; [vm_compute; reflexivity|].
+  split; [vm_compute; reflexivity|].
   split; [vm_compute; reflexivity|].
   eexists. split; [vm_compute; reflexivity|]. vm_compute. repeat split.
+Qed.
+
+(* a complete package for the three-sheet workbook: re-cased part names, shuffled order, extras *)
+Definition wit_chart : list event := [Start (ascii "chartsheet") []; End (ascii "chartsheet")].
+Definition wit_package_full (wb : eworkbook) : package :=
+  [(ascii "docProps/app.xml", []);
+   (ascii "xl/worksheets/sheet3.XML", encode wit_sheet);
+   (ascii "XL/_rels/Workbook.xml.RELS", rels_events wb);
+   (ascii "XL/Chartsheets/Sheet2.xml", wit_chart);
+   (ascii "xl/WORKBOOK.xml", workbook_events wb);
+   (ascii "xl/sharedStrings.xml", [Other]);
+   (ascii "Xl/Worksheets/SHEET1.xml", encode wit_sheet)].
+Definition wit_wb_r : eworkbook :=
+  mkWorkbook (ascii "x") (ascii "r") []
+    [mkSheetRef (ascii "First") (ascii "rId1") (ascii "worksheets/sheet1.xml") SpRelative [(a_sheetId, ascii "1")]
+                (SWork wit_sheet);
+     mkSheetRef (ascii "Second") (ascii "rId2") (ascii "chartsheets/sheet2.xml") SpAbsolute
+                [(a_state, v_hidden)] (SOther wit_chart);
+     mkSheetRef (ascii "Third") (ascii "rId3") (ascii "worksheets/sheet3.xml") SpXl [] (SWork wit_sheet)]
+    (Some (ascii "1")).
+
+Example wit_workbook_legal :
+  legal_workbook wit_wb_r = true /\ known_C01_wb wit_wb_r = None /\
+  package_holds toy_parse (e_strings wit_env) (e_formats wit_env) wit_wb_r (wit_package_full wit_wb_r).
+Proof.
+  split; [vm_compute; reflexivity|]. split; [vm_compute; reflexivity|].
+  unfold package_holds. split; [vm_compute; reflexivity|]. split; [|split].
+  - exists (ascii "XL/_rels/Workbook.xml.RELS"). split; [cbn; auto|vm_compute; reflexivity].
+  - exists (ascii "xl/WORKBOOK.xml"). split; [cbn; auto 6|vm_compute; reflexivity].
+  - intros s Hs. cbn [wit_wb_r wb_sheets] in Hs. destruct Hs as [E|[E|[E|[]]]]; subst s; cbn [sr_content sr_part content_events].
+    + exists (ascii "Xl/Worksheets/SHEET1.xml"). split; [cbn; auto 10|]. split; vm_compute; reflexivity.
+    + exists (ascii "XL/Chartsheets/Sheet2.xml"). split; [cbn; auto 10|]. split; vm_compute; reflexivity.
+    + exists (ascii "xl/worksheets/sheet3.XML"). split; [cbn; auto 10|]. split; vm_compute; reflexivity.
 Qed.
 End Wit.
 Export Wit.
